@@ -351,8 +351,12 @@ func (s *sched) firstPoint(gid uint64) bool {
 	if lo < n && s.parked[lo] == gid {
 		return false
 	}
+	// (no copy(): the runtime's slicecopy reports its accesses to the race detector
+	// even for callers compiled without instrumentation; a plain loop does not)
 	s.parked = append(s.parked, 0)
-	copy(s.parked[lo+1:], s.parked[lo:])
+	for i := len(s.parked) - 1; i > lo; i-- {
+		s.parked[i] = s.parked[i-1]
+	}
 	s.parked[lo] = gid
 	return true
 }
